@@ -368,14 +368,16 @@ def local_assigned_before(code, name, line):
                 elif isinstance(st_, (ast.For, ast.While)):
                     if st_.lineno == line:
                         read_stack[0] = stack
-                    visit(st_.body, stack)
-                    visit(st_.orelse, stack)
+                    # a loop body may not run at all, and TIFA analyses a loop's else clause as a continuation of its body: an
+                    # assignment inside a loop only counts for reads in the same block of the same loop
+                    visit(st_.body, stack + [(-id(st_), 'body')])
+                    visit(st_.orelse, stack + [(-id(st_), 'orelse')])
         visit(fn.body, [])
         if read_stack[0] is None:
             return False
         here = dict(read_stack[0])
         for stack in stores:
-            if all(here.get(if_id, branch) == branch for if_id, branch in stack):
+            if all((here.get(block, branch) == branch) if block > 0 else (here.get(block) == branch) for block, branch in stack):
                 return True
     return False
 
